@@ -195,7 +195,10 @@ RptNewStep(e) ==
         active == Present(sl) /\ sl.addr = AndW(e.cr3, AddrField)
         want == IF ~recursive THEN "NotRecursive" ELSE IF ~active THEN "NotActive" ELSE "Ok"
     IN IF /\ e.k = want
-          /\ (e.k = "Ok" => e.got = i4)
+          /\ ((e.k = "Ok" /\ e.got >= 0) => e.got = i4)   \* got: parsed from the Debug output when it has
+                                                          \* the expected shape (else -2: not observed here;
+                                                          \* the index in use is observed by RecOK on every
+                                                          \* operation of the recursive behaviours)
           /\ \A k \in 1 .. Len(e.instrs) : e.instrs[k].m = "mov_from_cr" /\ e.instrs[k].a = W(3)
        THEN Same ELSE Fail
 
@@ -231,6 +234,8 @@ Next ==
                /\ free' = SeqSet(e.pool) /\ lastClean' = << >>
                /\ skip' = FALSE /\ bad' = bad
                /\ tfs' = IF e.mem = << >> THEN {e.root} ELSE TableFramesOfR(m0, e.root, e.rix)
+       ELSE IF e.op \in {"crash", "uncaught_panic"}        \* the crate crashed the harness: never skipped
+       THEN /\ PrintT(<<"MISMATCH", l>>) /\ bad' = bad + 1 /\ skip' = TRUE /\ UNCHANGED <<vars, tfs>>
        ELSE IF skip THEN UNCHANGED <<vars, bad, skip, tfs>>
        ELSE LET st == Step(e) IN
             IF st.ok
